@@ -1,8 +1,45 @@
-(** C08 - placeholder until the weighting theorems land. *)
-From Coq Require Import List NArith.
+(** C08 — batch weighting.  Unpredictability of the weights before the proofs are fixed is TRUSTED
+    (Merlin as a random oracle); proved: what the weights are keyed with, that each multiplies every term
+    of its proof, and that cancellation pins the ratio. *)
+From Coq Require Import List Arith NArith Bool.
+From BP Require Import Base.Field Model.Codec Model.Transcript Model.Verifier Proofs.TranscriptP Proofs.WeightP.
 Import ListNotations.
-From BP Require Import Model.Transcript.
+
+(** the per-proof RNG that feeds the weight transcript absorbs r1, s1 and EVERY d1_k (after the whole
+    proof transcript) *)
 Theorem C08_verifier_rng_absorbs_all_responses : forall r1 s1 d1,
   ops_verifier_rng r1 s1 d1 = [OApp Lr1 32 r1; OApp Ls1 32 s1] ++ map (fun d => OApp Ld1 32 d) d1 ++ [ORng None; OFill 8].
 Proof. reflexivity. Qed.
 Print Assumptions C08_verifier_rng_absorbs_all_responses.
+
+(** ... injectively: equal logs force equal responses *)
+Theorem C08_responses_determined_by_log : forall s s' p p' l,
+  List.length (p_li p) = List.length (p_ri p) -> List.length (p_li p') = List.length (p_ri p') ->
+  verifier_ops s p = Some l -> verifier_ops s' p' = Some l -> p_r1 p = p_r1 p' /\ p_s1 p = p_s1 p' /\ p_d1 p = p_d1 p'.
+Proof. intros s s' p p' l H1 H2 E1 E2. destruct (verifier_ops_injective s s' p p' l H1 H2 E1 E2) as (_ & _ & _ & _ & _ & _ & A & B & C). auto. Qed.
+Print Assumptions C08_responses_determined_by_log.
+
+(** all per-proof values are absorbed before the single RNG from which every weight is drawn *)
+Theorem C08_weights_after_all_proofs : forall u64s draws,
+  weight_ops u64s draws = [OApp LDomSep 30 WEIGHT_LABEL_VALUE] ++ map (fun u => OApp LProof 8 u) u64s ++ [ORng None] ++ repeat (OFill 64) draws.
+Proof. reflexivity. Qed.
+Print Assumptions C08_weights_after_all_proofs.
+
+(** the weight multiplies every term contributed by its proof *)
+Theorem C08_weight_multiplies_every_term : forall (K : Fld), FldOk K -> forall bits promises pf ch w,
+  proof_terms K bits promises pf ch w = scale_terms K w (proof_terms K bits promises pf ch (f1 K)).
+Proof. exact proof_terms_linear_in_weight. Qed.
+Print Assumptions C08_weight_multiplies_every_term.
+
+(** two non-zero residuals cancel for exactly one ratio of the two weights *)
+Theorem C08_cancellation_fixes_ratio : forall (K : Fld), FldOk K -> forall (M : Mod K), ModOk K M ->
+  forall (w1 w2 w1' w2' : K) (R1 R2 : M), R1 <> v0 M -> w2 <> f0 K -> w2' <> f0 K ->
+  vadd M (smul M w1 R1) (smul M w2 R2) = v0 M -> vadd M (smul M w1' R1) (smul M w2' R2) = v0 M ->
+  fmul K w1 (finv K w2) = fmul K w1' (finv K w2').
+Proof. exact cancellation_fixes_ratio. Qed.
+Print Assumptions C08_cancellation_fixes_ratio.
+
+Theorem C08_bad_weight_unique : forall (K : Fld), FldOk K -> forall (M : Mod K), ModOk K M ->
+  forall (w w' : K) (R rest : M), R <> v0 M -> vadd M (smul M w R) rest = v0 M -> vadd M (smul M w' R) rest = v0 M -> w = w'.
+Proof. exact bad_weight_unique. Qed.
+Print Assumptions C08_bad_weight_unique.
